@@ -268,7 +268,7 @@ def check_C06(tier, seed):
     mon = ["--monitors", "C06"]
     plan = []
     if tier == "quick":
-        for k in ("tthrow-l000", "tco-l010", "tmot-l001", "tsw-l110"):
+        for k in ("tthrow-l000", "tco-l010", "tmot-l001", "tsw-l110", "tnx-l000"):
             plan += shards(Q[k], "asan-dbg", ["--mode", "fault", "--level", 0] + mon, 3)
         plan += shards(Q["tthrow-l011"], "asan-dbg", ["--mode", "fault", "--level", 0, "--pairs", 1, "--select", "alias"] + mon, 2)
         for k in ("tthrow-l000", "tthrow-std", "tnx-l000"):
